@@ -244,6 +244,10 @@ class _Recording(RecordUpdateListener):
     def async_update_records(self, zc, now, records):
         w = self.w
         pairs = [(C.rec_line(u.new), None if u.old is None else C.rec_line(u.old)) for u in records]
+        for u in records:
+            n, o = u[0], u[1]        # the legacy `new, old = update` protocol (RecordUpdate.__getitem__)
+            if n is not u.new or o is not u.old:
+                raise RuntimeError("RecordUpdate.__getitem__ disagrees with .new/.old")
         w.log.append(("u", self.lid, int(now), pairs, w.snapshot()))
         self._react(1)
 
@@ -274,6 +278,19 @@ class _Recording(RecordUpdateListener):
                         raise
                     w.executed.append((ph, lid, 0, target))
         w.zc.notified = keep
+
+
+class _Legacy(RecordUpdateListener):
+    """a listener of the old style: only `update_record` (reached through the base class's async_update_records shim)"""
+
+    def __init__(self, world):
+        self.w = world
+
+    def __hash__(self):
+        return 6
+
+    def update_record(self, zc, now, record):
+        self.w.legacy.append(C.rec_line(record))
 
 
 class _SvcListener(ServiceListener):
@@ -350,6 +367,9 @@ class World:
         self.engine = _EngineStub(self.zc)
         self.spy = _Recording(self, None)
         self.rm.async_add_listener(self.spy, None)
+        self.legacy = []
+        self.legacy_listener = _Legacy(self)
+        self.rm.async_add_listener(self.legacy_listener, None)
         self._listeners = {}
         self.browsers = {}
         self.log = []
@@ -402,6 +422,7 @@ class World:
         """run one op on the real code; returns its observation (dict of strings / lists of strings);
         with observe=False the readers are not evaluated (`R` is None)"""
         self.log, self.cbs, self.executed, self.failed = [], [], [], []
+        self.legacy = []
         self.zc.notified = 0
         k = op[0]
         obs = {"k": k, "err": None}
@@ -461,12 +482,13 @@ class World:
         obs["order"] = [[e[0], e[1]] for e in self.log]
         obs["executed"] = [list(x) for x in self.executed]
         obs["failed"] = [list(x) for x in self.failed]
+        obs["legacy"] = list(self.legacy)
         obs["n"] = self.zc.notified
         obs["cb"] = [list(x) for x in self.cbs]
         obs["ids"] = self.registered_ids()
         obs["S"] = self.snapshot()
-        obs["R"] = self.readers() if observe else None
-        obs["P"] = self.ptr_view() if observe else None
+        obs["R"] = self.readers() if (observe or obs["err"]) else None   # an op that raised ends the history: observe it
+        obs["P"] = self.ptr_view() if (observe or obs["err"]) else None
         return obs
 
 
